@@ -13,7 +13,7 @@ from ._pairs import compare_all, table_state_keys, V
 
 PID = "C15"
 LEVEL = "model_checking"
-WITNESSES = ["permuted_columns", "extra_column", "reindexed", "extra_rows", "thermal_crop", "combined_transformations", "season_calendar_checked_by_name", "nights_below_base_temperature", "weather_matrix_checked_by_date", "same_dates_other_row_offset", "stepwise_blocks", "rerun_with_later_start"]
+WITNESSES = ["permuted_columns", "extra_column", "reindexed", "extra_rows", "thermal_crop", "combined_transformations", "season_calendar_checked_by_name", "nights_below_base_temperature", "weather_matrix_checked_by_date", "same_dates_other_row_offset", "stepwise_blocks", "rerun_with_later_start", "yearly_periodic_weather"]
 NONTRIVIAL = WITNESSES
 
 COLS = ["MinTemp", "MaxTemp", "Precipitation", "ReferenceET", "Date"]
@@ -36,6 +36,7 @@ def _thermal(start_on_planting=False):
 
 def scenarios(tier, seed=0):
     yield from byname_scenarios(tier)
+    yield from periodic_scenarios(tier)
     perms = list(itertools.permutations(range(5)))
     ident = tuple(range(5))
     if tier == "quick":
@@ -56,6 +57,14 @@ def scenarios(tier, seed=0):
             # full product for the calendar and the thermal crop; every 12th permutation for the other two crop kinds
             for p, e, ix, r in itertools.product(perms if ck in ("calendar", "thermal") else perms[::12], EXTRA, INDEX, ROWS):
                 yield {"crop": ck, "perm": list(p), "extra": e, "index": ix, "rows": r}
+
+
+def periodic_scenarios(tier):
+    for crop in (("Potato", "Wheat") if tier == "quick" else ("Potato", "Wheat", "Tomato", "Cotton", "Barley")):
+        for word in ("warm", "mix"):
+            # 2003-2005 contains 29 Feb 2004 between two planting dates; 2001-2003 does not
+            yield {"kind": "periodic", "crop": crop, "word": word, "start": "2003/05/01", "end1": "2004/04/20", "endN": "2006/04/20"}
+            yield {"kind": "periodic", "crop": crop, "word": word, "start": "2001/05/01", "end1": "2002/04/20", "endN": "2004/04/20"}
 
 
 def byname_scenarios(tier):
@@ -250,7 +259,46 @@ def base_for(ck):
     return _BASE[ck]
 
 
+def run_periodic(scn):
+    """Weather that repeats itself every calendar year: a calendar crop converted to thermal time over 1 season and over 3 seasons (with a
+    29 February between two planting dates) must give the same first season - the conversion averages identical seasons."""
+    from ..driver import GX as _GX
+    res = empty_result()
+    base = A.catalogue_spec(scn["crop"], word=scn["word"], cropkw={"SwitchGDD": 1, "SwitchGDDType": scn.get("sumfun", "mean")} if scn.get("sumfun") else {"SwitchGDD": 1},
+                            start=scn["start"], end=scn["end1"], irr="smt")
+    base["weather"]["annual"] = True
+    long_ = copy.deepcopy(base)
+    long_["end"] = scn["endN"]
+    ta, aa, ma = run_plain(base)
+    tb, ab, mb = run_plain(long_)
+    res["evals"] = 2
+    if aa or ab:
+        res["aborted"] = aa or ab
+        from .c16 import documented
+        if not documented(aa or ab):
+            res["violations"].append(V("equivalent-weather-table-raises", None, {"exc": (aa or ab).get("exc_type"), "origin": (aa or ab).get("exc_origin")}, "runs", sig=["raise-periodic"]))
+        return res
+    res["states"], res["transitions"] = table_state_keys(tb)
+    res["witness"]["yearly_periodic_weather"] = 1
+    ga, gb = ta["growth"], tb["growth"]
+    ra = np.where((ga[:, _GX["season_counter"]] == 0) & (ga[:, _GX["dap"]] > 0))[0]
+    rb = np.where((gb[:, _GX["season_counter"]] == 0) & (gb[:, _GX["dap"]] > 0))[0]
+    if len(ra) != len(rb):
+        res["violations"].append(V("identical-seasons-convert-identically", None, {"one_season_days": int(len(ra)), "three_seasons_first_season_days": int(len(rb))}, "same season length", sig=["periodic-len"]))
+        return res
+    x, y = np.nan_to_num(ga[ra][:, 2:]), np.nan_to_num(gb[rb][:, 2:])
+    bad = np.argwhere(np.abs(x - y) > 1e-7 * np.maximum(1.0, np.abs(x)))
+    if len(bad):
+        r, c = int(bad[0][0]), int(bad[0][1]) + 2
+        from ..driver import GROWTH_COLS
+        res["violations"].append(V("identical-seasons-convert-identically", int(ra[r]), {"col": GROWTH_COLS[c], "day_of_season": r + 1, "one_season_run": float(ga[ra[r], c]), "three_season_run": float(gb[rb[r], c])},
+                                   "equal within 1e-7 (the thermal conversion averages identical seasons)", sig=["periodic", GROWTH_COLS[c]]))
+    return res
+
+
 def run(scn):
+    if scn.get("kind") == "periodic":
+        return run_periodic(scn)
     if scn.get("kind") == "byname":
         return run_byname(scn)
     res = empty_result()
